@@ -296,6 +296,8 @@ class Data(object):
         if axis == verif.axis.All():
             I = np.where(valid == 0)
             for i in range(0, len(fields)):
+                # Copy, otherwise the cached input data is masked in place
+                scores[i] = np.array(scores[i], copy=True)
                 scores[i][I[0], I[1], I[2]] = np.nan
         else:
             I = np.where(valid)
